@@ -49,8 +49,16 @@ pub enum Op {
     Compile { src: String, opts: Opts },
     /// `prql_to_pl` → `pl_to_rq` → `rq_to_sql`; observes PL (canonical), RQ and SQL
     Staged { src: String, opts: Opts },
-    /// the same, but every stage boundary goes through `prqlc::json`
-    StagedJson { src: String, opts: Opts },
+    /// the same, but every stage boundary goes through `prqlc::json`. With `between`, the host
+    /// serves another request on this thread between writing a document and reading it back:
+    /// that program's PL and RQ documents are written (and dropped) in between. Must give
+    /// exactly what the operation gives without `between`.
+    StagedJson {
+        src: String,
+        #[serde(default, skip_serializing_if = "Option::is_none")]
+        between: Option<String>,
+        opts: Opts,
+    },
     /// staged compilation the way a host with other work does it: between `pl_to_rq` and
     /// `rq_to_sql` of `src` the same thread parses and lowers an unrelated program
     /// (`between`, result discarded). Must give exactly what `Staged { src, opts }` gives.
@@ -539,17 +547,40 @@ fn do_op(op: &Op) -> Obs {
             via_json,
             opts,
         } => staged(src, Some(between), *via_json, opts),
-        Op::StagedJson { src, opts } => {
+        Op::StagedJson { src, between, opts } => {
             let o = match opts.to_options() {
                 Ok(o) => o,
                 Err(e) => return Obs::err(format!("OPTS {}", err_json(&e))),
             };
+            // the other request's documents (its result, error or panic is the host's business)
+            let other = |stage: u8| {
+                if let Some(b) = between {
+                    crate::seams::set_in_between(true);
+                    let _ = std::panic::catch_unwind(std::panic::AssertUnwindSafe(|| {
+                        if let Ok(pl) = prqlc::prql_to_pl(b) {
+                            let _ = prqlc::json::from_pl(&pl);
+                            if stage == 1 {
+                                if let Ok(rq) = prqlc::pl_to_rq(pl) {
+                                    let _ = prqlc::json::from_rq(&rq);
+                                }
+                            }
+                        }
+                    }));
+                    crate::seams::set_in_between(false);
+                }
+            };
             let r = prqlc::prql_to_pl(src)
                 .and_then(|pl| prqlc::json::from_pl(&pl))
-                .and_then(|j| prqlc::json::to_pl(&j))
+                .and_then(|j| {
+                    other(0);
+                    prqlc::json::to_pl(&j)
+                })
                 .and_then(prqlc::pl_to_rq)
                 .and_then(|rq| prqlc::json::from_rq(&rq))
-                .and_then(|j| prqlc::json::to_rq(&j))
+                .and_then(|j| {
+                    other(1);
+                    prqlc::json::to_rq(&j)
+                })
                 .and_then(|rq| prqlc::rq_to_sql(rq, &o));
             match r {
                 Ok(sql) => Obs::ok(sql),
